@@ -88,9 +88,17 @@ def check_step(case, ctx):
     except R.Invalid:
         ctx.count("invalid-child-skipped")
         return
-    for form, node in impl_parents(p):
+    for n_form, (form, node) in enumerate(impl_parents(p)):
         what = "ckd(%d) from %s parent k=%#x depth=%d" % (i, form, p["k"], p["depth"])
-        st_, child = call(node.ckd, i)
+        if n_form == 1:
+            st_, child = call(node.ckd, index=i)                       # keyword form, as the wallet code calls it
+        elif n_form == 2 and i < 2 ** 32 - 1:
+            st_, kids = call(node.generate_children, interval=(i, i + 1))    # bulk form
+            child = kids[0] if st_ == "ok" and len(kids) == 1 else kids
+            if st_ == "ok" and not (isinstance(kids, list) and len(kids) == 1):
+                raise Violation("C01/step/bulk-children", "generate_children((%d, %d)) returned %r" % (i, i + 1, kids))
+        else:
+            st_, child = call(node.ckd, i)
         if st_ == "exc":
             raise Violation("C01/step/raised", "%s raised %r" % (what, child))
         compare_node("C01/step", what, child, rc, p["testnet"])
@@ -160,6 +168,13 @@ def check_path(case, ctx):
                 raise Violation("C01/path/raised", "derive_path(%r) on a temporary root raised %r" % (path, lone))
             compare_node("C01/derive_path-temporary-root", "derive_path(%s) from a %s root that is not kept alive"
                          % (R.fmt_path(path), form), lone, refs[-1], p["testnet"])
+        # a one-shot iterable instead of a list
+        if path:
+            st_, it_node = call(dict(impl_parents(p))[form].derive_path, iter(list(path)))
+            if st_ == "exc":
+                ctx.count("derive_path-refuses-iterators (not judged)")
+            else:
+                compare_node("C01/derive_path-iterator", "derive_path(iter(%s))" % R.fmt_path(path), it_node, refs[-1], p["testnet"])
         # the caller's list object is left alone and can be used again
         if path:
             shared = list(path)
@@ -175,7 +190,7 @@ def check_path(case, ctx):
                          again, refs[-1], p["testnet"])
         # derive_path on a fresh root gives the same end node
         fresh = dict(impl_parents(p))[form]
-        st_, end = call(fresh.derive_path, list(path))
+        st_, end = call(fresh.derive_path, index_list=tuple(path)) if form == "key33" else call(fresh.derive_path, list(path))
         if st_ == "exc":
             raise Violation("C01/path/raised", "derive_path(%r) raised %r" % (path, end))
         if path:
